@@ -58,6 +58,8 @@ func cmdFunc(args []string) {
 	to := fs.Int("t", 10, "solver timeout seconds")
 	dir := fs.String("repo", "/repo", "repository")
 	verbose := fs.Bool("v", false, "verbose")
+	own := fs.Bool("own", false, "ownership discipline (C17)")
+	narrow := fs.Bool("narrow", false, "narrow obligations (C13)")
 	fs.Parse(args)
 	w := load(*dir)
 	pat := fs.Arg(0)
@@ -81,7 +83,7 @@ func cmdFunc(args []string) {
 				ct = nil
 			}
 			par <- struct{}{}
-			res := w.GenVC(fn, ct)
+			res := w.GenVC(fn, ct, func(e *vc.Engine) { e.OwnCheck = *own; e.CheckNarrow = *narrow })
 			<-par
 			var out strings.Builder
 			if res.Rejected != "" {
